@@ -51,7 +51,8 @@ func verifMakePA(i int) *verifPA {
 	switch p.selector {
 	case 0:
 		// "no selector" is written either by omitting it or as a present-but-empty one (selector: {}): the same policy
-		if vp.Choice(pre+".emptySelector", 2) == 1 {
+		// (the first two policies carry the choice; a third one, thorough tier, is written the usual way)
+		if i < 2 && vp.Choice(pre+".emptySelector", 2) == 1 {
 			spec.Selector = &typev1beta1.WorkloadSelector{}
 		}
 	case 1:
